@@ -60,6 +60,8 @@ type Episode struct {
 	Recs   []Rec
 	Infra  string
 	Dead   bool
+	// NoChannel: the server (Spec.NoSecurity) accepted no secure channel at all
+	NoChannel bool
 	// NonRSA marks sessions created with a certificate that is not an RSA certificate
 	NonRSA map[int]bool
 	// PostWait: how long to watch the server process after an answered request (crashes in
@@ -391,6 +393,16 @@ func (e *Episode) Setup() bool {
 	if err != nil {
 		e.Infra = "start server: " + err.Error()
 		return false
+	}
+	if e.Spec.NoSecurity {
+		// a server that enabled no security setting may refuse every channel (it does since the C30 repair)
+		e.ChA, err = OpenStd(ctx, e.Child.URL, ua.SecurityPolicyURINone, ua.MessageSecurityModeNone, nil, nil, 3*time.Second)
+		if err != nil {
+			e.ChA, e.NoChannel = nil, true
+			return true
+		}
+		e.ChB = nil
+		return true
 	}
 	e.ChA, err = OpenStd(ctx, e.Child.URL, ua.SecurityPolicyURINone, ua.MessageSecurityModeNone, nil, nil, 8*time.Second)
 	if err == nil {
